@@ -27,7 +27,9 @@ RULE = ('scripted: sequences of authentication lines over a 12-letter abstract a
         'first byte != NUL, NUL alone, 16384/16385-byte lines, unterminated buffer past 16 KiB. real: ANONYMOUS, '
         'EXTERNAL with/without peer credentials, DBUS_COOKIE_SHA1 with the right response and with wrong cookie / wrong '
         'challenge / swapped / truncated / empty / non-hex / replayed responses, against a spec-following client. '
-        'cookie_overlap: three simultaneous DBUS_COOKIE_SHA1 exchanges of one user, all orders of their start / end events, '
+        'near_commands: command words with foreign bytes in them, in lower case or with glued suffixes, and every '
+        'non-protocol word the authenticators would dispatch on by handler name (read off the implementation), in several '
+        'states - all must be treated as unknown commands. cookie_overlap: three simultaneous DBUS_COOKIE_SHA1 exchanges of one user, all orders of their start / end events, '
         'each completed with the cookie the keyring shows or cancelled - every right answer is accepted. Non-trivial = the sequence leaves WaitingForAuth, crosses the rejection limit, or is split inside a line; '
         'distinct = distinct case JSON.')
 ASSUMPTIONS = ['where the spec leaves the answer open the model admits a set: invalid or non-ASCII hex -> '
@@ -50,6 +52,33 @@ LETTERS = {
     'D2': b'DATA 61 62', 'AUr': b'AUTH NOSUCH 6162', 'ASP': b'AUTH  MECHA  6162  ',
 }
 CORE = ['A0', 'AU', 'AA', 'AAr', 'ABx', 'D0', 'Dh', 'Dx', 'BG', 'CN', 'ER', 'UK']
+PROTOCOL_WORDS = {'AUTH', 'BEGIN', 'CANCEL', 'DATA', 'ERROR', 'NEGOTIATE_UNIX_FD'}
+# near-commands: a real command word with foreign bytes in it, in lower case, glued to something - all of them are unknown
+NEAR = {'BGn': b'BEG\xc3\xa9IN', 'BGz': b'BEGIN\xe2\x80\x8b', 'AAn': b'AU\xc3\xa9TH MECHA 6162', 'bg': b'begin', 'Bg': b'Begin',
+        'AAx': b'AUTHX MECHA', 'BGx': b'BEGINNING', 'DTn': b'DA\xc2\xa0TA 6364', 'OKs': b'OK 0123456789abcdef'}
+LETTERS.update(NEAR)
+
+
+def _whitebox_words():
+    """Command words the implementation's own dispatch table would react to (the authenticators look handlers up by
+    name): every such name that is not a protocol command is a line a peer can send and the bus must treat as unknown."""
+    try:
+        from txdbus import authentication as AU
+        names = set()
+        for cls in (AU.BusAuthenticator, AU.ClientAuthenticator):
+            for n in dir(cls):
+                if n.startswith('_auth_') and callable(getattr(cls, n, None)):
+                    names.add(n[len('_auth_'):])
+        return sorted(w for w in names if w and w not in PROTOCOL_WORDS)
+    except Exception:
+        return []
+
+
+WHITEBOX = {}
+for _i, _w in enumerate(_whitebox_words()):
+    WHITEBOX['WB%d' % _i] = _w.encode('ascii', 'replace') + b' 726f6f74'
+    WHITEBOX['WB%db' % _i] = _w.encode('ascii', 'replace')
+LETTERS.update(WHITEBOX)
 SCRIPTS = [
     [['OK', None]],
     [['CONTINUE', 'c1'], ['OK', None]],
@@ -328,6 +357,20 @@ def enum_scripted(tier):
             for si, script in enumerate(SCRIPTS):
                 yield {'seq': list(seq), 'script': script, 'split': SPLITS[i % 3]}
                 i += 1
+
+
+def enum_near_commands(tier):
+    """Each near-command and each word from the implementation's own handler names, in every state a short prefix can
+    reach, followed by what a peer would try next."""
+    prefixes = [[], ['AA'], ['AAr'], ['AA', 'Dh'], ['AU'], ['AAr', 'CN'], ['AA', 'Dh', 'Dh']]
+    follow = [[], ['BG'], ['AAr', 'BG'], ['Dh', 'BG']]
+    i = 0
+    for x in sorted(NEAR) + sorted(WHITEBOX):
+        for pre in prefixes:
+            for fol in follow:
+                for script in SCRIPTS[:2]:
+                    yield {'seq': pre + [x] + fol, 'script': script, 'split': SPLITS[i % 3]}
+                    i += 1
 
 
 @st.composite
@@ -682,6 +725,10 @@ SUBCHECKS = [
                              'mechanism-outcome scripts'),
     Subcheck('scripted_random', run_scripted, classify_scripted, strategy=lambda tier: random_scripted(tier),
              n={'quick': 300, 'thorough': 3000}),
+    Subcheck('near_commands', run_scripted, classify_scripted, enumerate=enum_near_commands, shards={'quick': 4, 'thorough': 4},
+             exhaustive_note='9 near-commands (foreign bytes inside a command word, lower case, glued suffix, a client-side '
+                             'word) and every non-protocol word the authenticators would dispatch on by name, x 7 prefixes x 4 '
+                             'continuations x 2 mechanism scripts'),
     Subcheck('framing', run_framing, lambda c: (True, [c['f']]), enumerate=enum_framing,
              shards={'quick': 1, 'thorough': 1},
              exhaustive_note='listed framing faults at the 16384/16385 boundary'),
